@@ -2428,9 +2428,13 @@ private:
   //! Converts \p gs to lower triangular (i.e. minimized) form.
   /*!
     Expects \p gs to contain at least one point.
+    If \p eliminate_lines is <CODE>true</CODE>, the point and the parameters
+    are also made zero in the pivot column of each line, so that they
+    only depend on the grid generated by \p gs.
   */
   static void simplify(Grid_Generator_System& ggs,
-                       Dimension_Kinds& dim_kinds);
+                       Dimension_Kinds& dim_kinds,
+                       bool eliminate_lines = false);
 
   //! Reduces the line \p row using the line \p pivot.
   /*!
